@@ -65,7 +65,24 @@ def run(ck):
         o = byi[ci]
         rep = {"ids": ids, "keys": keys}
         if o.get("err"):
-            raise vf.Infra("could not build the ring %s: %s" % (ids, o["err"]))
+            # a join refused while building: the ring built so far was settled, so a wrong lookup on it (the joiner's id is the last key)
+            # is a violation of the property; a refusal no wrong lookup explains is inconclusive
+            found = False
+            if o.get("stable") and "lookups" in o:
+                part = sorted(ids[m] for m in o["members"])
+                pkeys = keys + [ids[o["joiner"]]]
+                for frm, ki, res, err in o["lookups"]:
+                    want = oracle(part, pkeys[ki])
+                    got = ids[res] if res >= 0 else None
+                    if got != want:
+                        found = True
+                        cls = "member-id" if pkeys[ki] in part else ("wrap" if pkeys[ki] > max(part) or pkeys[ki] == 0 else "between")
+                        ck.violation("C01:%s:%s" % (origin.split("-")[0], cls),
+                                     "while building %s the join of %d was refused (%s); on the settled ring of the members so far %s, FindSuccessor(%d) asked "
+                                     "at node %d returned %s (%s), the responsible node is %d" % (ids, ids[o["joiner"]], o["err"], part, pkeys[ki], ids[frm], got, err, want), rep)
+            if not found:
+                raise vf.Infra("could not build the ring %s: %s" % (ids, o["err"]))
+            continue
         if not o["stable"]:
             ck.notes.append("ring %s did not reach a maintenance fixpoint in 40 rounds" % ids)
             continue
